@@ -31,6 +31,9 @@ def gen_cases(ctx, n_streams):
         [bytes.fromhex('0001'), b'', bytes.fromhex('00000002')],
         [],
     ]
+    for line in fc.load_corpus('C05', 'reader.txt'):
+        cases.append(fc.case_from_line(line))
+        tags.append(({'corpus'}, 'corpus'))
     for d in directed:
         for fin in ['eof', 'pending', 'err']:
             cases.append(('tcp', 'stop', fin, d))
@@ -60,6 +63,12 @@ def gen_client_cases(ctx, n):
         [([reply(0)[:7]], 'err'), ([reply(1)], 'pending'), ([exc(2)], 'pending')],
         [([reply(0)], 'eof'), ([reply(1)], 'eof')],
     ]
+    for line in fc.load_corpus('C05', 'client.txt'):
+        conns = []
+        for conn in line.split('/'):
+            parts = conn.split()
+            conns.append(([bytes.fromhex(x) for x in parts[1:]], parts[0]))
+        cases.append(conns)
     while len(cases) < n:
         conns = []
         for k in range(r.choice([1, 2, 2, 2, 3])):
@@ -176,9 +185,11 @@ def run(ctx):
     if not ctx.build_harness() or not models_ok:
         return
     client_cases = None
+    server_replay = None
     if ctx.replay and 'cases' in ctx.replay:
         cs = ctx.replay['cases']
-        client_cases = [[([bytes.fromhex(x) for x in ch], fin) for ch, fin in c['client']] for c in cs if isinstance(c, dict)]
+        client_cases = [[([bytes.fromhex(x) for x in ch], fin) for ch, fin in c['client']] for c in cs if isinstance(c, dict) and 'client' in c]
+        server_replay = [fc.case_from_json(c['server']) for c in cs if isinstance(c, dict) and 'server' in c]
         cases = [fc.case_from_json(c) for c in cs if not isinstance(c, dict)]
         tags = [(set(), 'replay')] * len(cases)
     else:
@@ -199,6 +210,33 @@ def run(ctx):
     if client_cases:
         bad, client_impl = run_client(ctx, client_cases)
         ctx.oblige('correspondence:client-reader-fresh-on-every-connection', bad == 0, f'{bad} mismatches over {len(client_cases)} multi-connection histories')
+    # server role: the production SessionTask over the same streams; the session must end as the Spec says and
+    # everything it does (handler calls, replies) must be the same for every chunking of the same stream
+    n_srv = 0
+    if not ctx.replay or server_replay:
+        srv_cases = server_replay or [c for c in cases if c[1] == 'stop'][:(900 if ctx.quick() else 9000)]
+        srv_specs = {fc.to_line(c): r[2] for c, r in zip(cases, results)} if not server_replay else {}
+        if server_replay:
+            for c, r in zip(srv_cases, fc.evaluate(ctx, srv_cases)):
+                srv_specs[fc.to_line(c)] = r[2]
+        srv = ctx.harness('server_session', [' '.join(['tcp', c[2]] + [(x.hex() if x else '-') for x in c[3]]) for c in srv_cases], shards=8)
+        by_stream, bad_srv = {}, 0
+        for c, line in zip(srv_cases, srv):
+            f = dict(kv.split('=', 1) for kv in line.split(' ')) if line not in ('PANIC', 'SPIN') else {'calls': '-1', 'replies': '-', 'end': line}
+            spec = srv_specs[fc.to_line(c)]
+            has_empty = any(len(x) == 0 for x in c[3])
+            key = (b''.join(c[3]), c[2]) if not has_empty else None
+            first = by_stream.setdefault(key, (c, line)) if key else (c, line)
+            if f['end'] != spec.split(' ')[-1] or (spec.count('F(') == 0 and (f['calls'] != '0' or f['replies'] != '-')) or first[1] != line:
+                bad_srv += 1
+                if bad_srv == 1:
+                    other = '' if first[1] == line else f' but {first[1][:120]} when the same bytes arrive as `{fc.to_line(first[0])[:120]}`'
+                    ctx.violation('tcp-server.session-depends-on-chunking' if other else 'tcp-server.session-differs-from-spec',
+                                  f'server session on `{fc.to_line(c)[:160]}`: {line[:160]}{other}; the stream prescribes {spec[:120]}',
+                                  {'cases': [{'server': fc.case_to_json(c)}] + ([{'server': fc.case_to_json(first[0])}] if other else []), 'impl': line, 'spec': spec})
+        n_srv = len(srv_cases)
+        ctx.oblige('correspondence:tcp-server-session-chunking-independent', bad_srv == 0,
+                   f'{bad_srv} mismatches over {n_srv} sessions / {len(by_stream)} distinct streams')
     # measured input classes
     classes = {}
     def bump(k, n=1):
@@ -231,11 +269,11 @@ def run(ctx):
         ctx.oblige('generator-reaches-expected-classes', not missing, 'missing: ' + ','.join(missing))
     nontrivial = set(fc.to_line(c) for c, (impl, _, _, _) in zip(cases, results) if len(c[3]) >= 2 and 'F(' in impl)
     ctx.coverage.update({
-        'evaluations': len(cases) + len(client_cases),
+        'evaluations': len(cases) + len(client_cases) + n_srv,
         'distinct_nontrivial': len(nontrivial) + len(set(client_line(c) for c in client_cases if len(c) > 1)),
         'rule': 'reader cases (framing, stop/resume, ending, chunk list) from a seeded PRNG: directed list first, then concatenations of valid/invalid MBAP frames '
                 'x schedules (all-at-once, byte-per-byte, boundary splits, fixed/random sizes, buffer-edge); non-trivial = at least two reads and at least one frame delivered; '
-                'client cases = histories of 1-3 connections; non-trivial = more than one connection; distinct by value',
+                'client cases = histories of 1-3 connections; non-trivial = more than one connection; server sessions = the stop-mode cases again through the production SessionTask; distinct by value',
         'samples': [fc.to_line(c)[:160] + ' => ' + r[0][:120] for c, r in list(zip(cases, results))[11:15]] + [client_line(c) + ' => ' + i for c, i in list(zip(client_cases, client_impl))[:2]],
         'input_classes': dict(sorted(classes.items())),
         'exhaustive': False,
